@@ -450,6 +450,17 @@ fn merge_totality(r: &Report) {
                 Err(p) => r.violation(format!("merge/panic@{}", crate::engine::panic_site(&p)), json!({"self": na, "other": nb}), p),
                 Ok(res) => {
                     r.outcome(if res.is_ok() { "totality:merged" } else { "totality:refused" });
+                    // PSETs with different numbers of inputs or outputs cannot describe the same transaction: they must be
+                    // refused whether or not a unique id can be computed for each of them (a lock-time conflict makes
+                    // unique_id() an error; that must not open the gate)
+                    // Not demanded when NEITHER side has a computable id: the statement speaks of "different unique ids", and two
+                    // PSETs without any id do not have different ones (the library compares the two errors and merges them;
+                    // recorded in DESIGN.md as an observation outside the property).
+                    let (ia, ib) = (a.unique_id().is_ok(), b.unique_id().is_ok());
+                    if res.is_ok() && (ia || ib) && (a.n_inputs() != b.n_inputs() || a.n_outputs() != b.n_outputs()) {
+                        let idk = if ia && ib { "computable-ids" } else { "one-uncomputable-id" };
+                        r.violation(format!("refusal/merged-different-transactions/different-shape/{}", idk), json!({"self": na, "other": nb}), "PSETs with different input / output counts were merged");
+                    }
                     if m.n_inputs() != before_in {
                         r.violation("merge/changed-input-count", json!({"self": na, "other": nb}), "merge changed the number of inputs");
                     }
